@@ -5,7 +5,7 @@ ID = "C35"
 COQ_FILES = ["Model/IncExec.v", "Proofs/IncExec1.v", "Proofs/IncExec2.v", "Proofs/IncExec3.v", "Proofs/IncExec4.v",
              "Common/Corr.v", "Props/C35.v"]
 PROPS = "Props/C35.v"
-THEOREMS = ["C35_incremental_eq_batch"]
+THEOREMS = ["C35_incremental_eq_batch", "C35_incremental_eq_batch_local"]
 AXIOMS_OK = []
 TRUSTED = ["hand-written small-step Gallina model of experimental/incremental (Model/IncExec.v), tied to the working tree by "
            "checks/C33.py / C34.py; C35_incremental_eq_batch is a corollary of C33_run_returns_fresh_values on that model",
